@@ -168,6 +168,13 @@ func (c *FnCtx) doCall(frame *Frame, st *State, in ssa.Instruction, call *ssa.Ca
 	// call-site rules of the function under verification
 	if !frame.inlined && frame.contract != nil && len(frame.contract.Asserts) > 0 && key != "" {
 		c.checkCallSiteAsserts(frame, st, in, key)
+		if c.hasAssumeAfter(frame) {
+			k0 := k
+			k = func(st *State, res Val) {
+				c.assumeAfterCall(frame, st, in, key, res)
+				k0(st, res)
+			}
+		}
 	}
 	// special handlers
 	if c.special(frame, st, in, call, key, args, rt, k) {
